@@ -467,3 +467,192 @@ Proof.
         specialize (Hv v Hv'). unfold voice_ok in Hv. replace (o + v_len v <=? o) with false by lia. reflexivity.
       * apply map_ext. intros f. unfold mk, closed_at. f_equal. lia.
 Qed.
+
+(* ------------------------------------------------------------------------------------------ *)
+(** * Grouping by onset and assembling the returned sequences *)
+
+Lemma group_at_all : forall t l, (forall n, In n l -> n_loc n = t) -> group_at t l = l.
+Proof.
+  induction l as [|n r IH]; intros H; [reflexivity|]. unfold group_at in *. cbn [filter].
+  replace (n_loc n =? t) with true by (specialize (H n (or_introl eq_refl)); lia).
+  f_equal. apply IH. intros m Hm. apply H. right; exact Hm.
+Qed.
+Lemma group_at_none : forall t l, (forall n, In n l -> n_loc n <> t) -> group_at t l = [].
+Proof.
+  induction l as [|n r IH]; intros H; [reflexivity|]. unfold group_at in *. cbn [filter].
+  replace (n_loc n =? t) with false by (specialize (H n (or_introl eq_refl)); lia).
+  apply IH. intros m Hm. apply H. right; exact Hm.
+Qed.
+Lemma group_at_app : forall t a b, group_at t (a ++ b) = group_at t a ++ group_at t b.
+Proof. intros. unfold group_at. apply filter_app. Qed.
+
+Lemma sounding_ge : forall es o x, forallb event_ok es = true -> In x (map fst (sounding es o)) -> o <= x.
+Proof.
+  induction es as [|e r IH]; intros o x Hok Hin; [destruct Hin|].
+  cbn [sounding forallb] in *. apply andb_true_iff in Hok as [He Hr]. unfold event_ok in He.
+  apply andb_true_iff in He as [Hd _].
+  destruct (e_voices e) as [|v vs].
+  - specialize (IH _ _ Hr Hin). lia.
+  - cbn [map fst In] in Hin. destruct Hin as [<-|Hin]; [lia|]. specialize (IH _ _ Hr Hin). lia.
+Qed.
+
+Definition nplace (o : Z) (vs : list voice) : list note := map cl (map (mkFV o) vs).
+
+Lemma nplace_loc : forall o vs n, In n (nplace o vs) -> n_loc n = o.
+Proof. intros o vs n H. unfold nplace in H. rewrite map_map in H. apply in_map_iff in H as [v [<- _]]. reflexivity. Qed.
+
+Lemma place_all_loc : forall es o n, forallb event_ok es = true -> In n (map cl (place_all es o)) -> o <= n_loc n.
+Proof.
+  intros es o n Hok H. apply in_map_iff in H as [f [<- Hf]].
+  destruct (place_all_app_ok _ _ _ Hf Hok). exact H0.
+Qed.
+
+Lemma fold_insert_repeat : forall (ns : list note) o L,
+  (forall n, In n ns -> n_loc n = o) -> (forall x, In x L -> o < x) ->
+  fold_right insert_uniq L (map n_loc ns) = match ns with [] => L | _ => o :: L end.
+Proof.
+  induction ns as [|n r IH]; intros o L H HL; [reflexivity|].
+  cbn [map fold_right]. rewrite (IH o L); [|intros m Hm; apply H; right; exact Hm|exact HL].
+  rewrite (H n (or_introl eq_refl)).
+  destruct r as [|m r'].
+  - destruct L as [|x L']; [reflexivity|]. cbn [insert_uniq].
+    replace (o <? x) with true by (specialize (HL x (or_introl eq_refl)); lia). reflexivity.
+  - cbn [insert_uniq]. rewrite Z.ltb_irrefl, Z.eqb_refl. reflexivity.
+Qed.
+
+Lemma times_of_place : forall es o, forallb event_ok es = true ->
+  times_of (map cl (place_all es o)) = map fst (sounding es o).
+Proof.
+  induction es as [|e r IH]; intros o Hok; [reflexivity|].
+  pose proof Hok as Hok'. cbn [forallb] in Hok. apply andb_true_iff in Hok as [He Hr].
+  pose proof He as He'. unfold event_ok in He'. apply andb_true_iff in He' as [Hd _].
+  cbn [place_all sounding]. unfold times_of. rewrite !map_app, fold_right_app.
+  change (fold_right insert_uniq [] (map n_loc (map cl (place_all r (o + e_dur e)))))
+    with (times_of (map cl (place_all r (o + e_dur e)))).
+  rewrite IH by exact Hr.
+  change (map cl (place o e)) with (nplace o (e_voices e)).
+  rewrite (fold_insert_repeat (nplace o (e_voices e)) o).
+  - unfold nplace. destruct (e_voices e); reflexivity.
+  - apply nplace_loc.
+  - intros x Hx. pose proof (sounding_ge _ _ _ Hr Hx). lia.
+Qed.
+
+Lemma groups_of_place : forall es o, forallb event_ok es = true ->
+  forall ov, In ov (sounding es o) ->
+  group_at (fst ov) (map cl (place_all es o)) = nplace (fst ov) (snd ov).
+Proof.
+  induction es as [|e r IH]; intros o Hok ov Hin; [destruct Hin|].
+  pose proof Hok as Hok'. cbn [forallb] in Hok. apply andb_true_iff in Hok as [He Hr].
+  pose proof He as He'. unfold event_ok in He'. apply andb_true_iff in He' as [Hd _].
+  cbn [place_all sounding] in *. rewrite map_app, group_at_app.
+  change (map cl (place o e)) with (nplace o (e_voices e)).
+  assert (Hlater : forall ov', In ov' (sounding r (o + e_dur e)) ->
+     group_at (fst ov') (nplace o (e_voices e)) ++ group_at (fst ov') (map cl (place_all r (o + e_dur e)))
+     = nplace (fst ov') (snd ov')).
+  { intros ov' Hin'. rewrite group_at_none.
+    - cbn [app]. apply IH; assumption.
+    - intros n Hn. rewrite (nplace_loc _ _ _ Hn).
+      pose proof (sounding_ge r (o + e_dur e) (fst ov') Hr (in_map fst _ _ Hin')). lia. }
+  destruct (e_voices e) as [|v vs] eqn:Ev.
+  - apply Hlater. exact Hin.
+  - destruct Hin as [<-|Hin]; [|apply Hlater; exact Hin]. cbn [fst snd].
+    rewrite group_at_all by apply nplace_loc. rewrite group_at_none; [apply app_nil_r|].
+    intros n Hn. pose proof (place_all_loc _ _ _ Hr Hn). lia.
+Qed.
+
+Lemma groups_of_sched : forall es o, forallb event_ok es = true ->
+  groups_of (map cl (place_all es o)) = map (fun ov => (fst ov, nplace (fst ov) (snd ov))) (sounding es o).
+Proof.
+  intros es o Hok. unfold groups_of. rewrite times_of_place by exact Hok. rewrite map_map.
+  apply map_ext_in. intros ov Hin. rewrite (groups_of_place es o Hok ov Hin). reflexivity.
+Qed.
+
+Lemma fold_max_ge : forall l a, a <= fold_left Z.max l a.
+Proof. induction l as [|x r IH]; intros a; cbn; [lia|]. specialize (IH (Z.max a x)). lia. Qed.
+
+Lemma max_dur_nplace : forall o vs, max_dur (nplace o vs) = max_len vs.
+Proof.
+  intros o [|v r]; [reflexivity|]. unfold nplace, max_dur, max_len. cbn [map].
+  rewrite !map_map. reflexivity.
+Qed.
+
+(* onsets strictly increasing, every group non-empty with positive lengths *)
+Fixpoint groups_ok (gs : list (Z * list voice)) : Prop :=
+  match gs with
+  | [] => True
+  | (o, vs) :: rest =>
+      vs <> [] /\ (forall v, In v vs -> 0 < v_len v)
+      /\ match rest with [] => True | (o', _) :: _ => o < o' end /\ groups_ok rest
+  end.
+
+Lemma assemble_expected : forall gs, groups_ok gs ->
+  assemble (map (fun ov => (fst ov, nplace (fst ov) (snd ov))) gs) = Some (expected_from gs).
+Proof.
+  induction gs as [|[o vs] rest IH]; intros Hok; [reflexivity|].
+  destruct Hok as [Hne [Hlen [Hnext Hrest]]].
+  cbn [map assemble expected_from fst snd]. rewrite (IH Hrest).
+  set (d := match rest with [] => max_len vs | (o', _) :: _ => o' - o end).
+  assert (Hd : (match map (fun ov => (fst ov, nplace (fst ov) (snd ov))) rest with
+                | [] => o + max_dur (nplace o vs) | (t', _) :: _ => t' end) - o = d).
+  { unfold d. destruct rest as [|[o' vs'] rest']; cbn [map fst]; [rewrite max_dur_nplace; lia|reflexivity]. }
+  rewrite Hd.
+  assert (Hd0 : d =? 0 = false).
+  { unfold d. destruct rest as [|[o' vs'] rest']; [|lia].
+    destruct vs as [|v r]; [congruence|]. unfold max_len.
+    pose proof (fold_max_ge (map v_len r) (v_len v)). specialize (Hlen v (or_introl eq_refl)). lia. }
+  change (match rest with [] => max_len vs | (o', _) :: _ => o' - o end) with d.
+  destruct vs as [|v [|v2 r]]; [congruence| |].
+  - cbn [nplace map]. rewrite Hd0. reflexivity.
+  - unfold nplace. cbn [map]. rewrite Hd0. unfold r_cons_many. cbn [map cl mkn n_pitch n_vel dur_of n_dur f_pitch f_voice].
+    rewrite !map_map. reflexivity.
+Qed.
+
+Lemma sounding_ok : forall es o, forallb event_ok es = true -> groups_ok (sounding es o).
+Proof.
+  induction es as [|e r IH]; intros o Hok; [exact I|].
+  cbn [forallb] in Hok. apply andb_true_iff in Hok as [He Hr].
+  unfold event_ok in He. apply andb_true_iff in He as [Hd Hv]. rewrite forallb_forall in Hv.
+  cbn [sounding]. destruct (e_voices e) as [|v vs] eqn:Ev; [apply IH; exact Hr|].
+  cbn [groups_ok]. split; [congruence|]. split.
+  - intros w Hw. specialize (Hv w Hw). unfold voice_ok in Hv. lia.
+  - split; [|apply IH; exact Hr].
+    destruct (sounding r (o + e_dur e)) as [|[o' vs'] rest] eqn:Es; [exact I|].
+    assert (In o' (map fst (sounding r (o + e_dur e)))) by (rewrite Es; left; reflexivity).
+    pose proof (sounding_ge _ _ _ Hr H). lia.
+Qed.
+
+(* ------------------------------------------------------------------------------------------ *)
+(** * The round trip *)
+
+Lemma scan_file_of_calls : forall es tend,
+  events_ok es = true ->
+  scan (encode 0 (sched_calls es) tend) 0 [] = map cl (place_all es 0).
+Proof.
+  intros es tend Hok. unfold events_ok in Hok. apply andb_true_iff in Hok as [Hev Hno].
+  rewrite scan_absolute, absolute_encode, scan_abs_steps, steps_app.
+  unfold sched_calls.
+  pose proof (sim es 0 0 [] ltac:(lia) ltac:(intros f []) Hev Hno) as S. cbn [rev map app] in S.
+  rewrite S. cbn [steps fold_left fst snd note_step app].
+  (* the closing dummy note_off finds no open note *)
+  assert (E : forall l, close_first 0 tend (map cl l) = map cl l).
+  { induction l as [|f r IH]; [reflexivity|]. cbn [map close_first]. unfold cl at 1. cbn [mkn is_open n_dur].
+    rewrite andb_false_r. rewrite IH. reflexivity. }
+  rewrite E, <- map_rev, rev_involutive. reflexivity.
+Qed.
+
+Lemma read_notes_closed : forall es, forallb event_ok es = true ->
+  read_notes (map cl (place_all es 0)) = ROk (expected es).
+Proof.
+  intros es Hok. unfold read_notes.
+  replace (existsb is_open (map cl (place_all es 0))) with false.
+  - rewrite groups_of_sched by exact Hok. rewrite assemble_expected; [reflexivity|].
+    apply sounding_ok. exact Hok.
+  - symmetry. induction (place_all es 0) as [|f r IH]; [reflexivity|]. cbn [map existsb]. exact IH.
+Qed.
+
+Lemma roundtrip_track : forall es tend,
+  events_ok es = true -> read_track (encode 0 (sched_calls es) tend) = ROk (expected es).
+Proof.
+  intros es tend Hok. unfold read_track. rewrite scan_file_of_calls by exact Hok.
+  apply read_notes_closed. unfold events_ok in Hok. apply andb_true_iff in Hok as [H _]. exact H.
+Qed.
